@@ -26,6 +26,7 @@ import (
 	"bytes"
 	"encoding/xml"
 	"fmt"
+	"strconv"
 	"strings"
 	"time"
 
@@ -597,10 +598,12 @@ func caseHasMandatory(cfg map[string]xnode, nd Node, path []string, errs []error
 	return errs
 }
 
-func resolveDescendant(c xnode, path []xml.Name) string {
+// resolveDescendant returns the value of the leaf the path leads to, and
+// whether that leaf is present (its value may be the empty string).
+func resolveDescendant(c xnode, path []xml.Name) (string, bool) {
 
 	if len(path) == 0 {
-		return ""
+		return "", false
 	}
 	hd, tl := path[0], path[1:]
 	for _, ch := range c.children(xutils.Sorted) {
@@ -613,33 +616,34 @@ func resolveDescendant(c xnode, path []xml.Name) string {
 			return resolveDescendant(ch, tl)
 		case Leaf:
 			// Compiler enforces non-empty leaf reference
-			return ch.YangDataValuesNoSorting()[0]
+			return ch.YangDataValuesNoSorting()[0], true
 		default:
-			return ""
+			return "", false
 		}
 	}
-	return ""
+	return "", false
 }
 
 // If, and only if, the given config node contains ALL sub-nodes listed in
 // the unique statement (uniques), return a string containing the value
-// for each sub-node, separated by the 'middle dot' character.
+// for each sub-node, each preceded by its length so that two lists of
+// values give the same string only if they are the same list.
 //
-// If any sub-node is not present, return an empty string. While this
+// If any sub-node is not present, report that there is no key. While this
 // might seem unintuitive, this is what the RFC specifies.
-func getUniqueKey(c xnode, uniques [][]xml.Name) string {
+func getUniqueKey(c xnode, uniques [][]xml.Name) (string, bool) {
 
-	var outs []string
+	var buf strings.Builder
 	for _, uniq := range uniques {
-		desc := resolveDescendant(c, uniq)
-		if desc == "" {
-			return ""
+		desc, ok := resolveDescendant(c, uniq)
+		if !ok {
+			return "", false
 		}
-		outs = append(outs, desc)
+		buf.WriteString(strconv.Itoa(len(desc)))
+		buf.WriteByte(':')
+		buf.WriteString(desc)
 	}
-	//use middle dot (U+00B7) to join strings so we don't have
-	//problems with string values.
-	return strings.Join(outs, "·")
+	return buf.String(), true
 }
 
 func xmlPathToPath(path []xml.Name) []string {
@@ -674,7 +678,7 @@ func uniqueString(c xnode, uniques [][]xml.Name) string {
 		buf.WriteByte('[')
 		buf.WriteString(xmlPathJoin(uniq))
 		buf.WriteByte(' ')
-		desc := resolveDescendant(c, uniq)
+		desc, _ := resolveDescendant(c, uniq)
 		buf.WriteString(desc)
 		buf.WriteByte(']')
 		if i != len(uniques)-1 {
@@ -688,7 +692,8 @@ func uniquePaths(c xnode, uniques [][]xml.Name) [][]string {
 	paths := make([][]string, len(uniques))
 	for i, uniq := range uniques {
 		paths[i] = xmlPathToPath(uniq)
-		paths[i] = append(paths[i], resolveDescendant(c, uniq))
+		desc, _ := resolveDescendant(c, uniq)
+		paths[i] = append(paths[i], desc)
 	}
 	return paths
 }
@@ -705,8 +710,8 @@ func checkUnique(c xnode, valType ValidationType,
 	for _, u := range sch.Uniques() {
 		m := make(map[string][]xnode)
 		for _, key := range c.children(xutils.Sorted) {
-			k := getUniqueKey(key, u)
-			if k == "" {
+			k, ok := getUniqueKey(key, u)
+			if !ok {
 				// We skip entries that don't have all the nodes present
 				continue
 			}
